@@ -1,3 +1,332 @@
-/- Property theorems for C11 — to be filled in. -/
+/-
+  C11 — a mutex admits one running stage; a deferred choice has exactly one winner.
+
+  Model: `Stab.Claims` (Model/Claims.lean).  All theorems quantify over every stage list (any number of stages, any
+  assignment of mutex keys / choice groups), both values of `fixSteal`, and EVERY sequence of operations — stale
+  fast-path reads (`peekM`/`peekC` … `claim`), atomic starts, finishes, cancels, parking, jump re-arms, retention sweeps
+  and `endWorkflow` attempts at arbitrary points — as long as the execution has not become terminal
+  (`(run …).wfTerminal = false`; the flag is monotone, so this covers every prefix).
+
+    `mutex_owner_invariant` ⇒ `mutex_exclusive`, `choice_single_winner`, `winner_cancels_siblings`,
+    `loser_cancels_self`, `mutex_progress` / `mutex_progress_free` (steal path), `mutex_progress_fixed`,
+    `sweep_only_terminal_executions`.
+
+  What is FALSE of the code as found (each with a witness; replayed on the engine by harness/props/c11.py):
+    `rearm_deadlock_counterexample`   — F30: a jump re-arm leaves the claim row with a NOT_STARTED owner; a waiter is
+                                        re-queued forever although nobody holds the mutex (`mutex_progress` needs the
+                                        hypothesis "owner complete"); with proposed_fixes/F30.diff `mutex_progress_fixed` holds.
+    `sweep_terminal_counterexample*`  — once the EXECUTION is terminal (which `CompleteWorkflowHandler` decides as soon as
+                                        any stage is TERMINAL/CANCELED, even while others are live) the sweep frees claims of
+                                        live stages, and two stages of one key can be live together.
+-/
+import Stab.Lemmas.Claims
+
 namespace Stab.Props.C11
+open Stab Stab.Claims
+
+/-- **mutex_owner_invariant.** A RUNNING / SUSPENDED / PAUSED stage with mutex key k owns the claim row of k. -/
+theorem mutex_owner_invariant (f : Bool) (stages : List Stage) (ops : List Op)
+    (hend : (run (init f stages) ops).wfTerminal = false) (i : Nat) (g : Stage) (k : Nat)
+    (hi : (run (init f stages) ops).stages[i]? = some g) (hl : live g.status = true) (hm : g.mutex = some k) :
+    getC (run (init f stages) ops).claims (.mutex k) = some i :=
+  (run_inv (init_inv f stages) ops hend).owner i g k hi hl hm
+
+/-- **mutex_exclusive.** Never two live stages with one key. -/
+theorem mutex_exclusive (f : Bool) (stages : List Stage) (ops : List Op)
+    (hend : (run (init f stages) ops).wfTerminal = false) (i j : Nat) (gi gj : Stage) (k : Nat)
+    (hi : (run (init f stages) ops).stages[i]? = some gi) (hj : (run (init f stages) ops).stages[j]? = some gj)
+    (hli : live gi.status = true) (hlj : live gj.status = true) (hmi : gi.mutex = some k) (hmj : gj.mutex = some k) :
+    i = j := by
+  have a := mutex_owner_invariant f stages ops hend i gi k hi hli hmi
+  have b := mutex_owner_invariant f stages ops hend j gj k hj hlj hmj
+  rw [a] at b; exact Option.some.inj b
+
+/-- **choice_single_winner.** Of one deferred-choice group at most one stage ever commits NOT_STARTED → RUNNING
+    (`started` logs every such commit; the same stage may start again after a re-arm). -/
+theorem choice_single_winner (f : Bool) (stages : List Stage) (ops : List Op)
+    (hend : (run (init f stages) ops).wfTerminal = false) (i j : Nat) (gi gj : Stage) (c : Nat)
+    (hi : i ∈ (run (init f stages) ops).started) (hj : j ∈ (run (init f stages) ops).started)
+    (hgi : (run (init f stages) ops).stages[i]? = some gi) (hgj : (run (init f stages) ops).stages[j]? = some gj)
+    (hci : gi.group = some c) (hcj : gj.group = some c) : i = j := by
+  have inv := run_inv (init_inv f stages) ops hend
+  have a := inv.winner i gi c hi hgi hci
+  have b := inv.winner j gj c hj hgj hcj
+  rw [a] at b; exact Option.some.inj b
+
+/-- the two shapes of a `_start_if_ready` outcome: nothing about the stages changed, or stage `i` went RUNNING and was logged -/
+theorem claimWith_cases (s : St) (i : Nat) (mb cc : Bool) :
+    (claimWith s i mb cc).1.stages = s.stages ∨
+    (∃ g : Stage, s.stages[i]? = some g ∧ g.status = .notStarted ∧
+      (claimWith s i mb cc).1.stages = s.stages.set i { g with status := .running } ∧
+      (claimWith s i mb cc).1.started = i :: s.started ∧ (claimWith s i mb cc).2 = .started ∧
+      ∃ s' : St, s'.stages = s.stages.set i { g with status := .running } ∧
+        (claimWith s i mb cc).1.cancelQ = s.cancelQ ++ losers s' i) := by
+  unfold claimWith
+  cases hgi : s.stages[i]? with
+  | none => exact Or.inl rfl
+  | some gi =>
+    simp only
+    split
+    · exact Or.inl rfl
+    · rename_i hns
+      split
+      · exact Or.inl rfl
+      · split
+        · exact Or.inl rfl
+        · split
+          · exact Or.inl rfl
+          · split
+            · exact Or.inl rfl
+            · exact Or.inr ⟨gi, rfl, by simpa using hns, rfl, rfl, rfl, _, rfl, rfl⟩
+
+/-- only the claim transaction moves a stage NOT_STARTED → RUNNING, and it logs it -/
+theorem start_is_logged (s : St) (i : Nat) (mb cc : Bool) (j : Nat) (g g' : Stage)
+    (hg : s.stages[j]? = some g) (hg' : (claimWith s i mb cc).1.stages[j]? = some g')
+    (hns : g.status = .notStarted) (hr : g'.status = .running) :
+    j = i ∧ (claimWith s i mb cc).1.started = i :: s.started ∧ (claimWith s i mb cc).2 = .started := by
+  rcases claimWith_cases s i mb cc with h | ⟨gi, hgi, _, hst, hlog, hout, _⟩
+  · rw [h, hg] at hg'; cases hg'; rw [hns] at hr; cases hr
+  · rw [hst, List.getElem?_set] at hg'
+    split at hg'
+    · rename_i e; exact ⟨e.symm, hlog, hout⟩
+    · rw [hg] at hg'; cases hg'; rw [hns] at hr; cases hr
+
+/-- **choice_losers_canceled (1).** The winner's start pushes a CancelStage for every sibling still NOT_STARTED. -/
+theorem winner_cancels_siblings (s : St) (i : Nat) (mb cc : Bool) (hst : (claimWith s i mb cc).2 = .started)
+    (g gj : Stage) (c j : Nat) (hg : s.stages[i]? = some g) (hc : g.group = some c) (hne : j ≠ i)
+    (hj : s.stages[j]? = some gj) (hcj : gj.group = some c) (hns : gj.status = .notStarted) :
+    j ∈ (claimWith s i mb cc).1.cancelQ := by
+  have hjl : j < s.stages.length := by
+    rcases Nat.lt_or_ge j s.stages.length with hl | hl
+    · exact hl
+    · rw [List.getElem?_eq_none hl] at hj; cases hj
+  have hil : i < s.stages.length := by
+    rcases Nat.lt_or_ge i s.stages.length with hl | hl
+    · exact hl
+    · rw [List.getElem?_eq_none hl] at hg; cases hg
+  rcases claimWith_cases s i mb cc with h | ⟨gi, hgi, _, _, _, _, s', hs', hq⟩
+  · -- nothing changed: then the outcome was not `started`
+    exfalso
+    revert hst
+    unfold claimWith
+    simp only [hg]
+    split
+    · simp
+    · split
+      · simp
+      · split
+        · simp
+        · split
+          · simp
+          · split
+            · simp
+            · rename_i cs2 _
+              intro _
+              have : (s.stages.set i { g with status := .running })[i]? = s.stages[i]? := by
+                have := h; unfold claimWith at this; simp only [hg] at this
+                simp_all
+              rw [List.getElem?_set, hg] at this
+              simp [hil] at this
+              have hns' : g.status = .running := by rw [← this]
+              simp_all
+  · rw [hg] at hgi; cases hgi
+    rw [hq, List.mem_append]
+    right
+    simp only [losers, hs', List.getElem?_set, hil, if_true, List.length_set, hc]
+    simp only [List.mem_filter, List.mem_range, Bool.and_eq_true, bne_iff_ne, ne_eq]
+    refine ⟨hjl, hne, ?_⟩
+    simp [Ne.symm hne, hj, hcj, hns]
+
+/-- **choice_losers_canceled (2).** Once the group's claim row belongs to somebody else, a delivered StartStage of a
+    NOT_STARTED member can only push a CancelStage for itself — whatever its (possibly stale) fast-path read said. -/
+theorem loser_cancels_self (s : St) (u w c : Nat) (g : Stage) (cc : Bool)
+    (hg : s.stages[u]? = some g) (hns : g.status = .notStarted) (hm : g.mutex = none) (hc : g.group = some c)
+    (hown : getC s.claims (.choice c) = some w) (hne : w ≠ u) :
+    (claimWith s u false cc).2 = .cancelSelf ∧ u ∈ (claimWith s u false cc).1.cancelQ ∧
+      (claimWith s u false cc).1.stages = s.stages ∧ (claimWith s u false cc).1.claims = s.claims := by
+  unfold claimWith
+  simp only [hg, hns, hm, hc, ne_eq, not_true_eq_false, if_false, Bool.false_eq_true, Option.isSome_some, Bool.true_and]
+  cases cc
+  · simp [acquire, hown, hne]
+  · simp
+
+theorem not_blocked_of_no_running {s : St} {t : Nat}
+    (h : ∀ (j : Nat) (gj : Stage) (g : Stage) (k : Nat), s.stages[t]? = some g → g.mutex = some k → j ≠ t → s.stages[j]? = some gj →
+        gj.mutex = some k → gj.status ≠ .running) : mutexBlocked s t = false := by
+  unfold mutexBlocked
+  cases hg : s.stages[t]? with
+  | none => rfl
+  | some g =>
+    simp only
+    cases hm : g.mutex with
+    | none => rfl
+    | some k =>
+      simp only
+      rw [Bool.eq_false_iff]
+      intro hany
+      rw [List.any_eq_true] at hany
+      obtain ⟨j, _, hj⟩ := hany
+      simp only [Bool.and_eq_true, bne_iff_ne, ne_eq] at hj
+      obtain ⟨hne, hj2⟩ := hj
+      cases hgj : s.stages[j]? with
+      | none => rw [hgj] at hj2; cases hj2
+      | some gj =>
+        rw [hgj] at hj2
+        simp only [Bool.and_eq_true, beq_iff_eq] at hj2
+        exact h j gj g k hg hm hne hgj hj2.1 hj2.2
+
+/-- **mutex_progress (steal path).** If the holder of key k is complete and the waiter's StartStage is delivered, the waiter
+    acquires the key and starts. -/
+theorem mutex_progress (s : St) (hinv : Inv s) (t o k : Nat) (g : Stage) (st : Status)
+    (hg : s.stages[t]? = some g) (hns : g.status = .notStarted) (hm : g.mutex = some k) (hc : g.group = none)
+    (hown : getC s.claims (.mutex k) = some o) (hst : statusOf s o = some st) (hcomp : st.isComplete = true) :
+    (step s (.tryStart t)).2 = .started ∧ getC (step s (.tryStart t)).1.claims (.mutex k) = some t := by
+  have hnb : mutexBlocked s t = false := by
+    apply not_blocked_of_no_running
+    intro j gj g' k' hg' hm' hne hgj hmj hrun
+    rw [hg] at hg'; cases hg'; rw [hm] at hm'; cases hm'
+    have := hinv.owner j gj k hgj (by rw [hrun]; rfl) hmj
+    rw [hown] at this; cases this
+    unfold statusOf at hst; rw [hgj] at hst; simp at hst; rw [hrun] at hst; subst hst; cases hcomp
+  simp only [step, claimWith, hg, hns, hnb, hm, hc, ne_eq, not_true_eq_false, if_false, Bool.false_eq_true, Option.isSome_none, Bool.false_and]
+  by_cases e : o = t
+  · subst e; simp [acquire, hown]
+  · simp [acquire, hown, e, hst, hcomp, getC_setC_eq]
+
+/-- … and if nobody ever held the key the waiter simply takes it -/
+theorem mutex_progress_free (s : St) (hinv : Inv s) (t k : Nat) (g : Stage)
+    (hg : s.stages[t]? = some g) (hns : g.status = .notStarted) (hm : g.mutex = some k) (hc : g.group = none)
+    (hown : getC s.claims (.mutex k) = none) :
+    (step s (.tryStart t)).2 = .started ∧ getC (step s (.tryStart t)).1.claims (.mutex k) = some t := by
+  have hnb : mutexBlocked s t = false := by
+    apply not_blocked_of_no_running
+    intro j gj g' k' hg' hm' hne hgj hmj hrun
+    rw [hg] at hg'; cases hg'; rw [hm] at hm'; cases hm'
+    have := hinv.owner j gj k hgj (by rw [hrun]; rfl) hmj
+    rw [hown] at this; cases this
+  simp [step, claimWith, hg, hns, hnb, hm, hc, acquire, hown, getC_setC_eq]
+
+/-- **mutex_progress with proposed_fixes/F30.diff.** Whenever no stage with key k is live, a delivered StartStage of a
+    NOT_STARTED stage with key k starts it — in every reachable state, after any number of jump re-arms. -/
+theorem mutex_progress_fixed (s : St) (hinv : Inv s) (hfix : s.fixSteal = true) (t k : Nat) (g : Stage)
+    (hg : s.stages[t]? = some g) (hns : g.status = .notStarted) (hm : g.mutex = some k) (hc : g.group = none)
+    (hfree : ∀ (j : Nat) (gj : Stage), s.stages[j]? = some gj → gj.mutex = some k → live gj.status = false) :
+    (step s (.tryStart t)).2 = .started ∧ getC (step s (.tryStart t)).1.claims (.mutex k) = some t := by
+  have hnb : mutexBlocked s t = false := by
+    apply not_blocked_of_no_running
+    intro j gj g' k' hg' hm' hne hgj hmj hrun
+    rw [hg] at hg'; cases hg'; rw [hm] at hm'; cases hm'
+    have := hfree j gj hgj hmj
+    rw [hrun] at this; cases this
+  cases hown : getC s.claims (.mutex k) with
+  | none => exact mutex_progress_free s hinv t k g hg hns hm hc hown
+  | some o =>
+    simp only [step, claimWith, hg, hns, hnb, hm, hc, ne_eq, not_true_eq_false, if_false, Bool.false_eq_true, Option.isSome_none, Bool.false_and]
+    by_cases e : o = t
+    · subst e; simp [acquire, hown]
+    · obtain ⟨go, hgo, hmo⟩ := hinv.claimKey k o hown
+      have hnl := hfree o go hgo hmo
+      have hso : statusOf s o = some go.status := by unfold statusOf; rw [hgo]; rfl
+      have hsteal : (go.status.isComplete || (s.fixSteal && go.status == .notStarted)) = true := by
+        rcases hinv.stat o go hgo with h1 | h1 | h1
+        · simp [h1, hfix]
+        · rw [h1] at hnl; cases hnl
+        · simp [h1]
+      simp [acquire, hown, e, hso, hsteal, getC_setC_eq]
+
+/-- **sweep_only_terminal_executions.** The retention sweep never touches the claims of an execution that is not terminal. -/
+theorem sweep_only_terminal_executions (s : St) (h : s.wfTerminal = false) : step s .sweep = (s, .noop) := by
+  simp [step, h]
+
+/-- … hence sweeps at arbitrary points of a live execution are harmless: `mutex_exclusive` above already quantifies over
+    them.  This is the explicit form: dropping every sweep from the schedule does not change the outcome. -/
+theorem sweeps_are_noops_while_live (s : St) (ops : List Op) (hend : (run s ops).wfTerminal = false) :
+    run s (ops.filter (· ≠ .sweep)) = run s ops := by
+  induction ops generalizing s with
+  | nil => rfl
+  | cons o rest ih =>
+    have hwf : s.wfTerminal = false := by
+      cases e : s.wfTerminal with
+      | false => rfl
+      | true => rw [run_wf_mono s (o :: rest) e] at hend; cases hend
+    by_cases ho : o = .sweep
+    · subst ho
+      have hs : (step s .sweep).1 = s := by rw [sweep_only_terminal_executions s hwf]
+      simp only [List.filter, ne_eq, not_true_eq_false, decide_false]
+      rw [run_cons, hs] at hend
+      rw [ih s hend, run_cons, hs]
+    · simp only [List.filter, ne_eq, ho, not_false_eq_true, decide_true]
+      rw [run_cons] at hend ⊢
+      rw [run_cons]
+      exact ih _ hend
+
+/-! ### what is false of the code as found -/
+
+def twoMutex : List Stage := [{ mutex := some 0 }, { mutex := some 0 }]
+
+/-- **F30 (re-arm keeps the claim row).** `t`(0) and `s`(1) share a key; `t` runs and finishes, `s` steals the key and runs,
+    then a jump re-arms both (retry loop `t → s`, `s` jumps back to `t`).  Nobody is live, yet `StartStage(t)` is re-queued
+    and changes nothing — forever. -/
+theorem rearm_deadlock_counterexample :
+    let s := run (init false twoMutex) [.tryStart 0, .finish 0 .succeeded, .tryStart 1, .reset 1, .reset 0]
+    s.wfTerminal = false ∧ s.stages.all (fun g => !live g.status) = true ∧ getC s.claims (.mutex 0) = some 1 ∧
+      (step s (.tryStart 0)).2 = .requeued ∧ (step s (.tryStart 0)).1.stages = s.stages ∧ (step s (.tryStart 0)).1.claims = s.claims := by
+  decide
+
+/-- with the fix the same state lets `t` start -/
+theorem rearm_fixed_example :
+    let s := run (init true twoMutex) [.tryStart 0, .finish 0 .succeeded, .tryStart 1, .reset 1, .reset 0]
+    (step s (.tryStart 0)).2 = .started := by
+  decide
+
+/-- **sweep of a terminal execution with a live holder (stale fast path).** Stage 2 is cancelled, `endWorkflow` makes the
+    execution terminal ("any CANCELED") while stage 0 is RUNNING; the sweep deletes its claim; stage 1, whose fast-path read
+    predates stage 0's start, claims the key: two RUNNING stages with one key. -/
+theorem sweep_terminal_counterexample :
+    let s := run (init false [{ mutex := some 0 }, { mutex := some 0 }, {}])
+      [.peekM 0, .peekM 1, .claim 0, .cancel 2, .endWorkflow, .sweep, .claim 1]
+    s.wfTerminal = true ∧ s.stages.map (·.status) = [.running, .running, .canceled] := by
+  decide
+
+/-- same without any stale read: the holder is SUSPENDED (the fast path only looks for RUNNING siblings) -/
+theorem sweep_terminal_suspended_counterexample :
+    let s := run (init false [{ mutex := some 0 }, { mutex := some 0 }, {}])
+      [.tryStart 0, .park 0 .suspended, .cancel 2, .endWorkflow, .sweep, .tryStart 1, .unpark 0]
+    s.wfTerminal = true ∧ s.stages.map (·.status) = [.running, .running, .canceled] := by
+  decide
+
+/-- the unrestricted `mutex_exclusive` (dropping "execution not terminal") is therefore false -/
+theorem mutex_exclusive_false_for_terminal_executions :
+    ¬ ∀ (f : Bool) (stages : List Stage) (ops : List Op) (i j : Nat) (gi gj : Stage) (k : Nat),
+        (run (init f stages) ops).stages[i]? = some gi → (run (init f stages) ops).stages[j]? = some gj →
+        live gi.status = true → live gj.status = true → gi.mutex = some k → gj.mutex = some k → i = j := by
+  intro h
+  have := h false [{ mutex := some 0 }, { mutex := some 0 }, {}]
+    [.tryStart 0, .park 0 .suspended, .cancel 2, .endWorkflow, .sweep, .tryStart 1, .unpark 0]
+    0 1 { status := .running, mutex := some 0 } { status := .running, mutex := some 0 } 0 (by decide) (by decide) rfl rfl rfl rfl
+  cases this
+
+/-! ### non-vacuity -/
+
+/-- both siblings pass the fast path before either claims (the race of test_mutex_deferred_choice_race): one starts, the
+    other is re-queued; after the holder finishes the re-delivered waiter steals the key -/
+example :
+    let r := runOut (init false twoMutex) [.peekM 0, .peekM 1, .claim 0, .claim 1, .finish 0 .succeeded, .tryStart 1]
+    r.2 = [.ok, .ok, .started, .requeued, .ok, .started] ∧ getC r.1.claims (.mutex 0) = some 1 ∧ r.1.wfTerminal = false := by
+  decide
+
+/-- three members of one group racing past the fast path: one winner, two cancel themselves, delivering the cancels ends them CANCELED -/
+example :
+    let r := runOut (init false [{ group := some 0 }, { group := some 0 }, { group := some 0 }])
+      [.peekC 0, .peekC 1, .peekC 2, .claim 1, .claim 0, .claim 2, .sweep, .cancelLosers]
+    r.2 = [.ok, .ok, .ok, .started, .cancelSelf, .cancelSelf, .noop, .ok] ∧
+      r.1.stages.map (·.status) = [.canceled, .running, .canceled] ∧ r.1.started = [1] ∧ r.1.wfTerminal = false := by
+  decide
+
+/-- the hypotheses of `mutex_progress` are satisfiable in a reachable state -/
+example :
+    let s := run (init false twoMutex) [.tryStart 0, .tryStart 1, .finish 0 .succeeded]
+    getC s.claims (.mutex 0) = some 0 ∧ statusOf s 0 = some .succeeded ∧ statusOf s 1 = some .notStarted ∧ s.wfTerminal = false := by
+  decide
+
 end Stab.Props.C11
